@@ -1866,9 +1866,78 @@ func (w *world) leaseCycle(c *simChan) {
 	}
 	w.r.Probe("op.lease_reacquire")
 	w.disturbed = true
-	if !w.c.Crash {
+	w.maybeQuietLease(c)
+	if !w.c.Crash && !w.stop() {
 		w.checkChannel(c, 1)
 	}
+}
+
+// maybeQuietLease: while the canonical entry of c has not recovered its log
+// end yet (database just reopened, or no warm state survived the reclamation),
+// the sole lease is sometimes used only for operations that never load the log
+// end - forward reads, lookups, a checkpoint rewrite - and is then closed and
+// reacquired, so that the next lease starts from whatever the registry kept of
+// a lease that never looked at the log end.
+func (w *world) maybeQuietLease(c *simChan) {
+	if c.log == nil || c.log.channelEntry == nil || c.log.loaded.Load() {
+		return
+	}
+	tp := w.r.Tape
+	mode := tp.Intn(4) // 0 = not this time
+	if mode == 0 {
+		return
+	}
+	st := c.st()
+	w.r.Logf("  %s quiet lease (mode %d): reads/lookups only, then close and reacquire", c.key, mode)
+	if msgs, err := c.log.Read(w.ctx, 1, ReadOptions{}); err == nil {
+		if m := compareRows("Read(1)", msgs, st.rows); m != nil {
+			w.fail(m.class, m.sig, m.detail)
+			return
+		}
+	}
+	if n := len(st.rows); n > 0 {
+		r := st.rows[n-1]
+		if m, ok, err := c.log.GetByMessageID(w.ctx, r.ID); err != nil || !ok || rowVsMessage(r, m) != "" {
+			w.fail("message-id-lookup-mismatch", "quiet-lease", fmt.Sprintf("GetByMessageID(%s,%d) = ok %v err %v %s", c.key, r.ID, ok, err, rowVsMessage(r, m)))
+			return
+		}
+		if r.From != "" && r.CMN != "" {
+			if hit, ok, err := c.log.LookupIdempotency(w.ctx, IdempotencyKey{FromUID: r.From, ClientMsgNo: r.CMN}); err != nil || !ok || hit.MessageSeq != r.Seq {
+				w.fail("idempotency-lookup-mismatch", "quiet-lease", fmt.Sprintf("LookupIdempotency(%s,%q,%q) = %+v ok %v err %v, model seq %d", c.key, r.From, r.CMN, hit, ok, err, r.Seq))
+				return
+			}
+		}
+	}
+	switch mode {
+	case 2:
+		if st.hasCP {
+			// rewrite the stored checkpoint with the same value (durable state unchanged)
+			if err := c.log.StoreCheckpoint(w.ctx, st.cp); err != nil {
+				w.fail("unexpected-error", "quiet-lease.checkpoint", fmt.Sprintf("StoreCheckpoint(%+v) on %s: %v", st.cp, c.key, err))
+				return
+			}
+		}
+	case 3:
+		// the batch entry point opens and closes a transient lease of its own; a non-advancing value writes nothing
+		if !st.hasCP {
+			// without a stored checkpoint the call writes {0,0,0}
+			ns := st.clone()
+			ns.hasCP, ns.catalog = true, true
+			w.issue(c, ns)
+		}
+		if res := StoreCheckpointHWMonotonicBatch(w.ctx, []CheckpointHWBatchItem{{Store: c.store, HW: st.hwOr0()}}); res[0].Err != nil {
+			w.fail("unexpected-error", "quiet-lease.checkpoint", fmt.Sprintf("StoreCheckpointHWMonotonicBatch(%d) on %s: %v", st.hwOr0(), c.key, res[0].Err))
+			return
+		}
+		if !st.hasCP {
+			w.ack(c)
+		}
+	}
+	w.release(c)
+	if !w.acquire(c) {
+		return
+	}
+	w.r.Probe("lease.quiet_cycle")
 }
 
 func (w *world) reopen() {
@@ -1888,7 +1957,12 @@ func (w *world) reopen() {
 	w.r.Fault("reopen")
 	w.r.Probe("op.reopen")
 	w.disturbed = true
-	if !w.c.Crash {
+	for _, c := range w.chans {
+		if !w.stop() {
+			w.maybeQuietLease(c)
+		}
+	}
+	if !w.c.Crash && !w.stop() {
 		w.fullCheck("after-reopen")
 	}
 }
